@@ -27,6 +27,14 @@ FAMILIES = {
         "shard": 10, "procs": 8,
     },
 
+    "ttl": {
+        "family": "ttl",
+        "coq_modules": ["Json", "Crc", "Hlc", "Kv", "Store", "Trace", "Corr"],
+        "in_type": "scase", "obs_type": "ttl_run",
+        "corr": "ttl_chk_ok", "chk": "ttl_chk_ok", "model": "ttl_model",
+        "n": {"quick": 48, "thorough": 480},
+        "shard": 8, "procs": 1,
+    },
     "reg": {
         "family": "reg",
         "coq_modules": ["Registry", "RegTrace"],
@@ -75,6 +83,12 @@ PROPS = {
         "level_text": "Proved on the registry model (Registry.v: cluster.buckets, cluster.bucketCount, store instances, handles, OpenBucket modes, Close, CloseAndDelete) for all histories over any handles, names and URLs: the reference count of a registered bucket equals the number of handles opened on it and not closed (C13_refcount, invariant rinv for every reachable state), and closing a handle - even twice - changes neither the status nor the data seen through any other handle (C13_close_is_local). Open-mode outcomes, data survival across reopen, removal by CloseAndDelete and the bucket-closed error are decided by the executable checker on implementation traces and by exact correspondence with the model; that the checker accepts every model trace is checked by evaluation. Concurrent opens/closes are not modelled: partial.",
         "level_note": "Histories exclude Close/CloseAndDelete through a stale handle of a deleted or fully closed bucket whose name has been opened again (unregisterBucket is keyed by name and would release the new bucket's reference; recorded as a limit in DESIGN.md). cluster.lock is assumed to make each registry action atomic. Trusted: Coq kernel + vm_compute, Go harness.",
         "assumptions": ["each OpenBucket / Close / CloseAndDelete is one atomic step (cluster.lock, bucket.mutex)", "no stale handle of a re-created bucket name is closed or deleted (op_ok)", "file system: os.Mkdir/os.Remove behave as a map from URL to directory"],
+    },
+    "C14": {
+        "families": [{"family": "kv", "chk": "kv_chk_C14", "corr": "kv_corr_C14", "model_chk": True}, {"family": "ttl"}],
+        "level_text": "Proved on the model for all histories: the expiry in force after every successful call is the one it was given (absolute, or now+offset), kept by PreserveExpiry and xattr-only writes, 0 after deletes (C14_exp_in_force, every entry point); in every reachable state a document carrying expiry T has the expiry manager armed for a time <= T (C14_timer_covers_min_exp: invariant over postNewEvent/Touch scheduling, the timer callback and reopen); a firing at time t tombstones exactly the documents with 0 < exp <= t, posts a deletion event for each and leaves all others untouched, so none expires early (C14_fire_correct, C14_never_early). Tie to the code: the kv family compares the expiry manager's nextExp (hook accessor) and every stored expiry exactly after every step, with timer firings placed by the history; the ttl family runs real timers (2-4 s deadlines, shorten/lengthen/preserve/clear, close and reopen before or after the deadline) and checks poll times. Partial: 'within a few seconds' assumes an armed Go timer fires; the check-then-delete window inside a firing (a writer racing expireDocuments) is outside the sequential model.",
+        "level_note": "Real-time part uses wall-clock polls with a 3 s allowance; relative expiries are compared only when the wall-clock second did not change during the call. The expiry manager's nextExp is read through the verif-only accessor VerifNextExp. Trusted: Coq kernel + vm_compute, Go harness.",
+        "assumptions": KV_ASSUME + ["an armed time.AfterFunc timer fires at its deadline (Go runtime)", "timer firings in the kv family are placed by the history (the real timer's callback is parked by the expiry.fire hook and the callback is run synchronously by 'expire' steps)"],
     },
     "C17": _kv("C17", "Full proof on the model: every successful mutation through any entry point raises the key's revision number by exactly one (1 on creation or re-creation after purge), failed calls leave it, and live events carry the stored number (C17_holds, all histories)."),
     "C04": {
